@@ -498,29 +498,123 @@ Proof.
   - cbn. lia.
 Qed.
 
-(* sptenrand(shape, density = p/q): the count the code derives is the one the property asks for *)
-Definition density_count_stmt : Prop :=
-  forall (total : nat) (p : Z) (q : positive), (0 < p)%Z -> (p <= Zpos q)%Z ->
-  sptenrand_count_impl total p q = Some (sptenrand_count_spec total p q).
-
-(* refuted twice: size*density < 1 is read as a density again (C20-N1); density = 1 is rejected (C20-N3) *)
-Theorem density_count_refuted : ~ density_count_stmt.
+(* ================================================================ request normalisation (exact rational model) *)
+Local Open Scope Z_scope.
+Lemma div_eq_cross (a c : Z) (b d : positive) : a * Zpos d = c * Zpos b -> a / Zpos b = c / Zpos d.
 Proof.
-  intros H. specialize (H 100 1%Z 200%positive). vm_compute in H. assert (E : Some 50 = Some 0) by (apply H; reflexivity || (intro; discriminate)).
-  discriminate.
+  intros H. rewrite <- (Z.div_mul_cancel_r a (Zpos b) (Zpos d)) by lia.
+  rewrite H, Z.mul_comm with (n := Zpos b). apply Z.div_mul_cancel_r; lia.
 Qed.
 
-(* ... and it holds on the rest of the range: at least one nonzero requested, density below one *)
-Theorem density_count_partial (total : nat) (p : Z) (q : positive) :
-  (Zpos q <= Z.of_nat total * p)%Z -> (0 < p < Zpos q)%Z ->
+Lemma zceil_bounds n d : Zpos d * (zceil n d - 1) < n <= Zpos d * zceil n d.
+Proof.
+  unfold zceil. pose proof (Z.div_mod (- n) (Zpos d) ltac:(lia)) as E.
+  pose proof (Z.mod_pos_bound (- n) (Zpos d) ltac:(lia)) as B. nia.
+Qed.
+
+(* the double product is exact (rn/rd = total * p/q as rationals): the faithful model is the exact-rational one *)
+Theorem norm_request_fl_exact (total : nat) p q rn rd :
+  rn * Zpos q = Z.of_nat total * p * Zpos rd -> norm_request_fl total p q rn rd = norm_request total p q.
+Proof.
+  intros H. unfold norm_request, norm_request_fl, zceil.
+  rewrite (div_eq_cross (- rn) (- (Z.of_nat total * p)) rd q) by lia. reflexivity.
+Qed.
+
+(* sptensor.from_function's reading of a request p/q, case by case (t = prod(shape)):
+   rejected  iff  p/q < 0 or p/q >= t;   0 <= p/q < 1: a density, count = ceil(t * p/q), which lies in [0, t] and is
+   positive iff p > 0;   1 <= p/q < t: a count, floor(p/q), which lies in [1, t) *)
+Theorem norm_request_cases (total : nat) p q :
+  let t := Z.of_nat total in
+  (p < 0 \/ t * Zpos q <= p -> norm_request total p q = None) /\
+  (0 <= p < Zpos q -> p < t * Zpos q ->
+     exists c, norm_request total p q = Some c /\ Z.of_nat c = zceil (t * p) q /\
+               Zpos q * (Z.of_nat c - 1) < t * p <= Zpos q * Z.of_nat c /\ (c <= total)%nat /\ ((0 < c)%nat <-> 0 < p)) /\
+  (Zpos q <= p < t * Zpos q ->
+     exists c, norm_request total p q = Some c /\ Z.of_nat c = p / Zpos q /\
+               Zpos q * Z.of_nat c <= p < Zpos q * (Z.of_nat c + 1) /\ (1 <= c < total)%nat).
+Proof.
+  intros t. unfold norm_request, norm_request_fl. fold t. repeat split.
+  - intros [H|H].
+    + destruct (Z.ltb_spec p 0); [reflexivity|lia].
+    + destruct (Z.ltb_spec p 0); [reflexivity|]. destruct (Z.leb_spec (t * Zpos q) p); [reflexivity|lia].
+  - intros H1 H2. destruct (Z.ltb_spec p 0); [lia|]. destruct (Z.leb_spec (t * Zpos q) p); [lia|]. cbn [orb].
+    destruct (Z.ltb_spec p (Zpos q)); [|lia].
+    pose proof (zceil_bounds (t * p) q) as B.
+    assert (Hc0 : 0 <= zceil (t * p) q) by nia.
+    exists (Z.to_nat (zceil (t * p) q)). rewrite Z2Nat.id by exact Hc0.
+    split; [reflexivity|]. split; [reflexivity|]. split; [exact B|]. split; [|split; intros; nia].
+    apply Nat2Z.inj_le. rewrite Z2Nat.id by exact Hc0. fold t. nia.
+  - intros H1. destruct (Z.ltb_spec p 0); [lia|]. destruct (Z.leb_spec (t * Zpos q) p); [lia|]. cbn [orb].
+    destruct (Z.ltb_spec p (Zpos q)); [lia|].
+    pose proof (Z.div_mod p (Zpos q) ltac:(lia)) as E. pose proof (Z.mod_pos_bound p (Zpos q) ltac:(lia)) as B.
+    assert (Hc0 : 0 <= p / Zpos q) by (apply Z.div_pos; lia).
+    exists (Z.to_nat (p / Zpos q)). rewrite Z2Nat.id by exact Hc0.
+    split; [reflexivity|]. split; [reflexivity|]. split; [nia|].
+    split; apply Nat2Z.inj_le || apply Nat2Z.inj_lt; rewrite ?Z2Nat.id by exact Hc0; fold t; cbn; nia.
+Qed.
+
+(* the code and the property read every request alike, except p/q = prod(shape) (open finding C20-N3) *)
+Theorem norm_request_eq_spec (total : nat) p q :
+  p <> Z.of_nat total * Zpos q -> norm_request total p q = norm_request_spec total p q.
+Proof.
+  intros H. unfold norm_request, norm_request_fl, norm_request_spec.
+  destruct (Z.leb_spec (Z.of_nat total * Zpos q) p), (Z.ltb_spec (Z.of_nat total * Zpos q) p); try lia; reflexivity.
+Qed.
+Theorem norm_request_at_size (total : nat) q :
+  norm_request total (Z.of_nat total * Zpos q) q = None /\
+  norm_request_spec total (Z.of_nat total * Zpos q) q = Some (if (total =? 0)%nat then 0%nat else total).
+Proof.
+  unfold norm_request, norm_request_fl, norm_request_spec. set (t := Z.of_nat total).
+  assert (Ht : 0 <= t) by (unfold t; lia).
+  destruct (Z.ltb_spec (t * Zpos q) 0); [nia|]. rewrite Z.leb_refl, Z.ltb_irrefl. cbn [orb]. split; [reflexivity|].
+  destruct (Z.ltb_spec (t * Zpos q) (Zpos q)) as [Hlt|Hge].
+  - assert (t = 0) by nia. destruct total; [|unfold t in *; lia]. cbn. reflexivity.
+  - rewrite Z.div_mul by lia. unfold t. rewrite Nat2Z.id. destruct total; [unfold t in *; cbn in Hge; lia|reflexivity].
+Qed.
+
+(* sptenrand(shape, density = p/q) after repair C20-N1: the count the code derives IS floor(prod(shape) * density)
+   for every density in (0, 1) and every non-empty shape (a count of zero included) *)
+Theorem density_count (total : nat) (p : Z) (q : positive) :
+  (0 < total)%nat -> 0 < p < Zpos q ->
   sptenrand_count_impl total p q = Some (sptenrand_count_spec total p q).
 Proof.
-  intros H1 H2. unfold sptenrand_count_impl, norm_request, sptenrand_count_spec.
-  assert (Ht : (0 < Z.of_nat total)%Z) by nia.
-  destruct (Z.ltb_spec (Z.of_nat total * p) 0); [nia|].
-  destruct (Z.leb_spec (Z.of_nat total * Zpos q) (Z.of_nat total * p)); [nia|]. cbn [orb].
-  destruct (Z.ltb_spec (Z.of_nat total * p) (Zpos q)); [lia|]. reflexivity.
+  intros Ht Hp. unfold sptenrand_count_impl, sptenrand_count_fl, sptenrand_guard, sptenrand_count_spec.
+  destruct (Z.ltb_spec 0 p); [|lia]. destruct (Z.leb_spec p (Zpos q)); [|lia]. cbn [andb].
+  set (t := Z.of_nat total). set (c := t * p / Zpos q).
+  assert (Ht' : 0 < t) by (unfold t; lia).
+  assert (Hc0 : 0 <= c) by (apply Z.div_pos; nia).
+  assert (Hc1 : c < t) by (apply Z.div_lt_upper_bound; nia).
+  unfold norm_request, norm_request_fl. fold t.
+  destruct (Z.ltb_spec c 0); [lia|]. destruct (Z.leb_spec (t * 1) c); [lia|]. cbn [orb].
+  destruct (Z.ltb_spec c 1).
+  - assert (c = 0) by lia. replace c with 0 by lia. rewrite Z.mul_0_r. reflexivity.
+  - now rewrite Z.div_1_r.
 Qed.
+
+(* the guard: a density outside (0, 1] is rejected; density = 1 is admitted by the guard and by the property but
+   rejected by from_function (open finding C20-N3) *)
+Theorem density_guard (total : nat) (p : Z) (q : positive) :
+  (p <= 0 \/ Zpos q < p -> sptenrand_count_impl total p q = None /\ sptenrand_request_spec total p q = None) /\
+  (p = Zpos q -> sptenrand_count_impl total p q = None /\ sptenrand_request_spec total p q = Some total).
+Proof.
+  unfold sptenrand_count_impl, sptenrand_count_fl, sptenrand_request_spec, sptenrand_guard, sptenrand_count_spec. split.
+  - intros [H|H].
+    + destruct (Z.ltb_spec 0 p); [lia|]. cbn [andb]. auto.
+    + destruct (Z.leb_spec p (Zpos q)); [lia|]. rewrite andb_false_r. auto.
+  - intros ->. destruct (Z.ltb_spec 0 (Zpos q)); [|lia]. rewrite Z.leb_refl. cbn [andb].
+    rewrite Z.div_mul by lia. rewrite Nat2Z.id. split; [|reflexivity].
+    unfold norm_request, norm_request_fl.
+    destruct (Z.ltb_spec (Z.of_nat total) 0); [lia|]. destruct (Z.leb_spec (Z.of_nat total * 1) (Z.of_nat total)); [reflexivity|lia].
+Qed.
+
+(* the double product is exact: the faithful count is the exact-rational one *)
+Theorem sptenrand_count_fl_exact (total : nat) p q rn rd :
+  rn * Zpos q = Z.of_nat total * p * Zpos rd -> sptenrand_count_fl total p q rn rd = sptenrand_count_impl total p q.
+Proof.
+  intros H. unfold sptenrand_count_impl, sptenrand_count_fl.
+  rewrite (div_eq_cross rn (Z.of_nat total * p) rd q) by lia. reflexivity.
+Qed.
+Local Close Scope Z_scope.
 
 (* ================================================================ guards of from_aggregator *)
 Section AggGuard.
@@ -637,3 +731,54 @@ Qed.
 (* ... and so do those of the random sparse generator, whatever the draws *)
 Theorem sprand_sorted nz s draws : StronglySorted idx_lt (sprand_subs nz s draws).
 Proof. unfold sprand_subs. apply StronglySorted_firstn, redraw_sorted. constructor. Qed.
+
+(* ================================================================ value ranges: the function's output verbatim *)
+Section Values.
+Context {V : Type} (v0 : V).
+
+(* tensor.from_function / tenrand: every stored value and every entry of the tensor IS a value the function returned,
+   so any predicate that holds for the function's output (e.g. 0 <= u < 1 for the uniform draws) holds for the tensor *)
+Theorem from_function_values (P : V -> Prop) (s : shape) (out T : dense V) :
+  wf_dense out -> from_function v0 s out = Some T -> Forall P (ddata out) ->
+  Forall P (ddata T) /\ (forall i, inb s i = true -> P (den_dense v0 T i)).
+Proof.
+  intros W E HP. unfold from_function in E.
+  destruct (Nat.eqb_spec (length (ddata out)) (size s)) as [HL|]; [|discriminate].
+  assert (Hs : size (dshape out) = size s) by (unfold wf_dense in W; lia).
+  destruct (from_function_ok v0 s out W Hs) as (T' & E' & _ & _ & Hd & Hden).
+  unfold from_function in E'. rewrite HL, Nat.eqb_refl in E'. rewrite E' in E. inversion E; subst T'.
+  split; [now rewrite Hd|]. intros i Hi. rewrite Hden by exact Hi.
+  rewrite Forall_forall in HP. apply HP, nth_In. rewrite HL. now apply sub2ind_lt.
+Qed.
+
+(* sptensor.from_function / sptenrand: the stored values are the supplied function's output verbatim, and the entry
+   at the k-th stored subscript is the k-th value *)
+Theorem sprand_values (nz : nat) (s : shape) (draws : list (list (list Z))) (vals : list V) :
+  length vals = length (sprand_subs nz s draws) ->
+  svals (sprand nz s draws vals) = vals /\
+  (forall k, k < length vals ->
+     den_sp v0 (sprand nz s draws vals) (nth k (sprand_subs nz s draws) []) = nth k vals v0) /\
+  (forall P : V -> Prop, P v0 -> Forall P vals -> forall i, P (den_sp v0 (sprand nz s draws vals) i)).
+Proof.
+  intros HL. split; [reflexivity|].
+  assert (Hn : NoDup (sprand_subs nz s draws)).
+  { unfold sprand_subs. apply NoDup_firstn.
+    assert (G : forall fuel cur ds, NoDup cur -> NoDup (fst (redraw fuel nz s cur ds))).
+    { induction fuel as [|f IH]; intros cur ds Hc; cbn [redraw]; auto.
+      destruct (length cur <? nz); auto. destruct ds as [|d ds]; auto. cbn [fst]. apply IH, unique_rows_NoDup. }
+    apply G. constructor. }
+  assert (Hk' : forall k, k < length vals ->
+     den_sp v0 (sprand nz s draws vals) (nth k (sprand_subs nz s draws) []) = nth k vals v0).
+  { intros k Hk. unfold den_sp. apply last_match_in.
+    + rewrite map_fst_entries by (cbn; lia). exact Hn.
+    + unfold entries. cbn [sprand ssubs svals].
+      rewrite <- (combine_nth (sprand_subs nz s draws) vals k [] v0) by lia.
+      apply nth_In. rewrite combine_length. lia. }
+  split; [exact Hk'|].
+  intros P P0 HP i. destruct (in_dec (list_eq_dec Nat.eq_dec) i (sprand_subs nz s draws)) as [Hin|Hout].
+  - destruct (In_nth _ _ [] Hin) as (k & Hk & E). rewrite <- E.
+    assert (Hk2 : k < length vals) by (rewrite HL; exact Hk). rewrite Hk' by exact Hk2.
+    rewrite Forall_forall in HP. apply HP, nth_In. exact Hk2.
+  - rewrite den_sp_notin by exact Hout. exact P0.
+Qed.
+End Values.
